@@ -92,7 +92,7 @@ package nsqd
 //@   modifies clientV2.InFlightCount, kConsEmptied, kLastCons
 //@   onreturn kConsEmptied := kConsEmptied + 1
 //@   onreturn kLastCons := cl
-//@   onreturn kEmptiedSet := add(kEmptiedSet, cl)
+//@   onreturn kEmptiedSet := setadd(kEmptiedSet, cl)
 //@ extern (github.com/nsqio/nsq/nsqd.Consumer).Close(cl) (err)
 //@   modifies kConsClosed, kLastClosed
 //@   onreturn kConsClosed := kConsClosed + 1
@@ -236,7 +236,7 @@ package nsqd
 //@   ensures[emptied-are-subscribers] kConsEmptied > old(kConsEmptied) ==> atunlock(kIsSubscriber(c, now(kLastCons)))
 //@   ensures[only-emptied] kConsClosed == old(kConsClosed) && kConsPaused == old(kConsPaused) && kConsUnpaused == old(kConsUnpaused) && kConsTimedOut == old(kConsTimedOut)
 //   completeness: EVERY connection subscribed while the channel lock is held has been told to drop its in-flight count
-//@   ensures[every-subscriber-emptied] forall id int64 :: {atunlock(c.clients[id])} atunlock(has(c.clients, id)) ==> in(kEmptiedSet, atunlock(c.clients[id]))
+//@   ensures[every-subscriber-emptied] forall id int64 :: {atunlock(c.clients[id])} atunlock(has(c.clients, id)) ==> setin(kEmptiedSet, atunlock(c.clients[id]))
 //@   ensures[counters-untouched] c.messageCount == old(c.messageCount) && c.requeueCount == old(c.requeueCount) && c.timeoutCount == old(c.timeoutCount) && c.exitFlag == old(c.exitFlag) && c.paused == old(c.paused)
 //@   modifies c.clients, mapstore(map[int64]Consumer), clientV2.InFlightCount, kConsEmptied, kLastCons, c.inFlightMessages, c.inFlightPQ, mapstore(map[MessageID]*Message), Message.index, c.deferredMessages, c.deferredPQ, mapstore(map[MessageID]*pqueue.Item), kInitPQs, kBqEmpties, chanstore(*Message)
 //@   onreturn jChanEmptyCalls := jChanEmptyCalls + 1
@@ -246,7 +246,7 @@ package nsqd
 //@     invariant[reset-done] kInitPQs == old(kInitPQs) + 1 && kInitPQChan == c && kBqEmpties == old(kBqEmpties)
 //@     invariant[subscriptions-kept] c.clients == atlock(c.clients) && len(c.clients) == atlock(len(c.clients)) && (forall id int64 :: {c.clients[id]} (has(c.clients, id) <==> atlock(has(c.clients, id))) && c.clients[id] == atlock(c.clients[id]))
 //@     invariant[emptied-are-subscribers] kConsEmptied >= old(kConsEmptied) && (kConsEmptied > old(kConsEmptied) ==> kIsSubscriber(c, kLastCons))
-//@     invariant[visited-emptied] forall id int64 :: {c.clients[id]} visited(id) ==> in(kEmptiedSet, c.clients[id])
+//@     invariant[visited-emptied] forall id int64 :: {c.clients[id]} visited(id) ==> setin(kEmptiedSet, c.clients[id])
 //@     invariant[only-emptied] kConsClosed == old(kConsClosed) && kConsPaused == old(kConsPaused) && kConsUnpaused == old(kConsUnpaused) && kConsTimedOut == old(kConsTimedOut)
 //@     invariant[channels] sent(c.memoryMsgChan) == old(sent(c.memoryMsgChan)) && sent(c.zoneLocalMsgChan) == old(sent(c.zoneLocalMsgChan)) && sent(c.regionLocalMsgChan) == old(sent(c.regionLocalMsgChan)) &&
 //@          recvd(c.memoryMsgChan) == old(recvd(c.memoryMsgChan)) && recvd(c.zoneLocalMsgChan) == old(recvd(c.zoneLocalMsgChan)) && recvd(c.regionLocalMsgChan) == old(recvd(c.regionLocalMsgChan))
@@ -254,7 +254,7 @@ package nsqd
 //@     invariant[reset-done] kInitPQs == old(kInitPQs) + 1 && kInitPQChan == c && kBqEmpties == old(kBqEmpties)
 //@     invariant[subscriptions-kept] c.clients == atlock(c.clients) && len(c.clients) == atlock(len(c.clients)) && (forall id int64 :: {c.clients[id]} (has(c.clients, id) <==> atlock(has(c.clients, id))) && c.clients[id] == atlock(c.clients[id]))
 //@     invariant[emptied-are-subscribers] kConsEmptied >= old(kConsEmptied) && (kConsEmptied > old(kConsEmptied) ==> kIsSubscriber(c, kLastCons))
-//@     invariant[all-emptied] forall id int64 :: {c.clients[id]} has(c.clients, id) ==> in(kEmptiedSet, c.clients[id])
+//@     invariant[all-emptied] forall id int64 :: {c.clients[id]} has(c.clients, id) ==> setin(kEmptiedSet, c.clients[id])
 //@     invariant[only-emptied] kConsClosed == old(kConsClosed) && kConsPaused == old(kConsPaused) && kConsUnpaused == old(kConsUnpaused) && kConsTimedOut == old(kConsTimedOut)
 //@     invariant[drain-only] sent(c.memoryMsgChan) == old(sent(c.memoryMsgChan)) && sent(c.zoneLocalMsgChan) == old(sent(c.zoneLocalMsgChan)) && sent(c.regionLocalMsgChan) == old(sent(c.regionLocalMsgChan)) &&
 //@          recvd(c.memoryMsgChan) >= old(recvd(c.memoryMsgChan)) && recvd(c.zoneLocalMsgChan) >= old(recvd(c.zoneLocalMsgChan)) && recvd(c.regionLocalMsgChan) >= old(recvd(c.regionLocalMsgChan))
